@@ -28,6 +28,14 @@ class FakePlayback(object):
         self.recorded_duration = 0.0
 
 
+class Unrebuildable(Exception):
+    """pickles in the worker, cannot be rebuilt by the parent (mandatory two-argument constructor)"""
+
+    def __init__(self, a, b):
+        super(Unrebuildable, self).__init__('unrebuildable %s' % (a,))
+        self.a, self.b = a, b
+
+
 class _Exit(BaseException):
     """the worker process exits (sys.exit inside the replayed code)"""
 
@@ -76,7 +84,10 @@ def make_functions(beh, ids, sched=None, state=None):
             sched.block_until(lambda: False, None, 'hang')
         if b == 'late':
             sched.block_until(lambda: state['gave_up'](k), None, 'late')
-        return FakePlayback(recording_id, k, b)
+        pb = FakePlayback(recording_id, k, b)
+        if b == 'unreadable':
+            pb.extra = Unrebuildable(k, 'x')
+        return pb
 
     def extractor(outputs):
         if outputs[2] == 'extractorRaises':
@@ -103,6 +114,104 @@ def run_inprocess(beh, keep_results):
                    compare_execution_config=CompareExecutionConfig(keep_results_in_comparison=keep_results,
                                                                    compare_in_dedicated_process=False))
     return [project(c, ids) for c in eq.run_comparison()]
+
+
+def run_inprocess_real(beh, keep_results):
+    """In-process comparison where the player is the *real* TapeRecorder.play over recordings made by the real
+    recorder (one recorder for the whole run, as the studio uses it): 'different' is a genuine difference of the
+    replayed outputs, a failing player raises *after* the replayed operation has sent its outputs."""
+    from playback.studio.equalizer import Equalizer, CompareExecutionConfig, ComparatorResult, EqualityStatus
+    from playback.tape_recorder import TapeRecorder
+    from playback.tape_cassettes.in_memory.in_memory_tape_cassette import InMemoryTapeCassette
+    import pbverif.opclasses as oc
+    cassette = InMemoryTapeCassette()
+    tr = TapeRecorder(cassette)
+    tr.enable_recording()
+    cur = {'k': 0, 'changed': False}
+
+    class EqOp(object):
+        @tr.operation()
+        def execute(self):
+            v = self.inp()
+            self.out(('sent', v, 'changed' if cur['changed'] else 'same'))
+            self.out(('second', v))
+            return ('result', v)
+
+        @tr.intercept_input('eq_in')
+        def inp(self):
+            return cur['k']
+
+        @tr.intercept_output('eq_out')
+        def out(self, payload):
+            return None
+    EqOp.__module__ = oc.__name__
+    EqOp.__qualname__ = EqOp.__name__ = 'EqOp_%d' % (id(EqOp) % 1000003)
+    setattr(oc, EqOp.__name__, EqOp)
+    ids = []
+    for k in range(1, len(beh) + 1):
+        cur['k'] = k
+        EqOp().execute()
+        ids.append(cassette.get_last_recording_id())
+    cur['k'] = -1
+    tr.disable_recording()
+
+    def kof(outputs):
+        for o in outputs:
+            if 'eq_out' in o.key and o.value['args'][0][0] == 'sent':
+                return o.value['args'][0][1]
+        return 0
+
+    def player(recording_id):
+        k = ids.index(recording_id) + 1
+        b = beh[k - 1]
+        cur['changed'] = (b == 'different')
+
+        def fn(recording):
+            r = EqOp().execute()
+            if b == 'playerRaises':
+                raise ValueError('scripted failure of the playback function after the operation replayed')
+            return r
+        try:
+            return tr.play(recording_id, fn)
+        finally:
+            cur['changed'] = False
+
+    def extractor(outputs):
+        k = kof(outputs)
+        if k and beh[k - 1] == 'extractorRaises':
+            raise KeyError('scripted extractor failure')
+        return sorted((o.key, repr(o.value)) for o in outputs)   # recorded outputs come in key order, replayed ones in call order
+
+    def comparator(recorded, played):
+        k = 0
+        for key, val in recorded:
+            if 'eq_out' in key and "'sent'" in val:
+                k = int(val.split("'sent', ")[1].split(',')[0])
+        b = beh[k - 1] if k else ''
+        if b == 'comparatorRaises':
+            raise RuntimeError('scripted comparator failure')
+        same = recorded == played
+        if b == 'bare':
+            return EqualityStatus.Equal if same else EqualityStatus.Different
+        return ComparatorResult(EqualityStatus.Equal if same else EqualityStatus.Different)
+    eq = Equalizer(iter(ids), player, extractor, comparator,
+                   compare_execution_config=CompareExecutionConfig(keep_results_in_comparison=keep_results,
+                                                                   compare_in_dedicated_process=False))
+    out = []
+    for c in eq.run_comparison():
+        st = c.comparator_status.equality_status
+        v = 'Failure' if st == EqualityStatus.EqualizerFailure else st.name
+        att = 0
+        pure = True
+        if c.playback is not None:
+            rid = c.playback.original_recording.id
+            att = ids.index(rid) + 1 if rid in ids else -1
+            # the attached replay holds the outputs of this replay alone: two eq_out calls of this recording + the result
+            ks = [o.value['args'][0][1] for o in c.playback.playback_outputs if 'eq_out' in o.key]
+            pure = ks == [att, att] and len(c.playback.playback_outputs) == 3
+        out.append({'id': ids.index(c.recording_id) + 1 if c.recording_id in ids else -1, 'verdict': v, 'attached': att,
+                    'pure': pure})
+    return out
 
 
 def run_dedicated(beh, rate, stop, late_wins, keep_results, abandon='close', max_steps=40000):
@@ -221,6 +330,40 @@ def run_dedicated(beh, rate, stop, late_wins, keep_results, abandon='close', max
         _os.kill = real_kill
         sched.shutdown()
     return res
+
+
+def impl_events(log, out):
+    """scheduler log of one dedicated-process run -> events of spec/EqualizerImplTrace.tla"""
+    gens = {}
+    ev = []
+    started = False
+    taskq = {}     # worker -> its task queue (the first queue it gets from)
+    n = len(log)
+    for i, e in enumerate(log):
+        by, k = e['by'], e['e']
+        if by == 'parent':
+            if k == 'proc_start':
+                gens['worker%d' % e['pid']] = len(gens) + 1
+                started = True
+            elif k == 'put':
+                ev.append({'e': 'prepare', 'new': started})
+                started = False
+            elif k == 'get':
+                ev.append({'e': 'got'})
+            elif k == 'kill':
+                ev.append({'e': 'kill'})
+            elif k == 'set':
+                nxt = [x for x in log[i + 1:] if x['by'] == 'parent']
+                if not (nxt and nxt[0]['e'] == 'proc_joined'):
+                    ev.append({'e': 'finally'})
+        elif by.startswith('worker'):
+            g = gens.get(by, 0)
+            if k == 'get':
+                ev.append({'e': 'take', 'g': g})
+            elif k == 'put':
+                ev.append({'e': 'answer', 'g': g})
+    ev.append({'e': 'out', 'verdicts': [o['verdict'] for o in out]})
+    return ev
 
 
 def expected_out(model_out, beh, keep_results):
